@@ -201,6 +201,7 @@ class Model:
         self.details_added = []  # (order, name, source, chunks|cell)
         self.cells = {}
         self.handlers = 0
+        self.gen_items = []      # generated details the outcome must carry: dict(type, marker, base, t)
         self._fx_cleanups = {}
         self.fixture_details = []
         self.mismatch_details = []
@@ -210,6 +211,14 @@ class Model:
     # -- helpers
     def note(self, kind, i, stage):
         self.raised.append({"kind": kind, "i": i, "stage": stage, "handlers": self.handlers})
+        k = klass(kind)
+        if kind == "setup_error":
+            return
+        if k in ("failure", "error", "nonexc"):
+            self.gen_items.append({"type": "traceback", "marker": i, "base": "traceback", "t": len(self.log)})
+        elif kind == "xfail":
+            # the assertion behind an expected failure (expectFailure) has its own traceback
+            self.gen_items.append({"type": "traceback-xfail", "marker": None, "base": "traceback", "t": len(self.log)})
 
     def run_list(self, acts, stage):
         """Returns True if the list completed, False if it raised."""
@@ -245,7 +254,7 @@ class Model:
         if t == "fixture":
             return self.use_fixture(a["spec"], stage)
         if t == "detail":
-            self.details_added.append({"name": a["name"], "i": a["i"], "chunks": a["chunks"], "cell": a["cell"]})
+            self.details_added.append({"name": a["name"], "i": a["i"], "chunks": a["chunks"], "cell": a["cell"], "t": len(self.log)})
             if a["cell"] is not None:
                 self.cells[a["cell"]] = b"".join(a["chunks"])
             return True
@@ -258,10 +267,15 @@ class Model:
                 self.force = True
                 self.expect_mismatches += 1
                 self.mismatch_details += [("M%d/%s" % (a["i"], n)) for n in a["dnames"]]
+                for n in a["dnames"]:
+                    self.gen_items.append({"type": "mismatch-detail", "marker": "M%d/%s" % (a["i"], n), "base": n, "t": len(self.log)})
+                self.gen_items.append({"type": "failed-expectation", "marker": a["i"], "base": "Failed expectation", "t": len(self.log)})
             return True
         if t == "assert":
             if not a["ok"]:
                 self.mismatch_details += [("M%d/%s" % (a["i"], n)) for n in a["dnames"]]
+                for n in a["dnames"]:
+                    self.gen_items.append({"type": "mismatch-detail", "marker": "M%d/%s" % (a["i"], n), "base": n, "t": len(self.log)})
                 self.note("mismatch", a["i"], stage)
                 return False
             return True
@@ -320,6 +334,8 @@ class Model:
         for e in errors:
             self.note(e["kind"], e["i"], stage)
         self.fixture_details.append((f, "failed"))
+        for n in f["details"]:
+            self.gen_items.append({"type": "fixture-detail", "marker": "FX%d/%s/" % (f["i"], n), "base": n, "t": len(self.log)})
         return False
 
     def run_cleanup(self, item):
@@ -341,6 +357,8 @@ class Model:
                 self.note(e["kind"], e["i"], "cleanup")
         elif kind == "gather":
             self.fixture_details.append((x, "ok"))
+            for n in x["details"]:
+                self.gen_items.append({"type": "fixture-detail", "marker": "FX%d/%s/" % (x["i"], n), "base": n, "t": len(self.log)})
 
     def run(self):
         p = self.p
